@@ -544,6 +544,52 @@ func genC11(c *ctx) {
 		wb.Varint(7)
 		c.emit(T("gc", A("bigmap"), target, schemaSx(sch), H(wb.Bytes())))
 	}
+	// slices whose backing store is exactly one page (4096 bytes), half and double of it: 256 / 128 / 512 strings (16 bytes
+	// each) and 512 / 256 / 1024 pointers, in one block and in two
+	for _, items := range []int{128, 255, 256, 257, 512, 1024} {
+		for _, kind := range []string{"string", "ptr"} {
+			for _, split := range []bool{false, true} {
+				it, vt := sPrim("string"), tString
+				if kind == "ptr" {
+					it, vt = sUnion(sPrim("null"), sPrim("long")), T("ptr", tInt(64))
+				}
+				sch := sRecord("Page", avro.SchemaRecordField{Name: "s", Type: sArray(it)}, avro.SchemaRecordField{Name: "pad", Type: sPrim("long")})
+				target := T("struct", hs("Page"), hs(""),
+					T("field", hs("S"), A("true"), hs("s"), hs(""), T("slice", vt)),
+					T("field", hs("Pad"), A("true"), hs("pad"), hs(""), tInt(64)))
+				wb := avro.NewWriteBuf(nil)
+				item := func(i int) {
+					if kind == "ptr" {
+						wb.Varint(1)
+						wb.Varint(int64(i * 1000003))
+						return
+					}
+					v := fmt.Sprintf("item-%d-of-a-page-sized-slice", i)
+					wb.Varint(int64(len(v)))
+					wb.Write([]byte(v))
+				}
+				first := items
+				if split {
+					first = items / 2
+				}
+				wb.Varint(int64(first))
+				for i := 0; i < first; i++ {
+					item(i)
+				}
+				if split {
+					wb.Varint(int64(items - first))
+					for i := first; i < items; i++ {
+						item(i)
+					}
+				}
+				wb.Varint(0)
+				wb.Varint(7)
+				for _, m := range []string{"after", "filecb"} {
+					c.emit(T("gc", A(m), target, schemaSx(sch), H(wb.Bytes()), H(wb.Bytes())))
+				}
+			}
+		}
+	}
 	// random schemas with derived targets (pointers sprinkled in by tgen)
 	n := c.scale(150, 3000)
 	for i := 0; i < n; i++ {
